@@ -968,6 +968,10 @@ func (c *codegen) Visit(node ast.Node) ast.Visitor {
 		c.scope.vars.newScope()
 		defer c.scope.vars.dropScope()
 
+		// The label of the statement (if any) is taken before anything is walked:
+		// an inlined call in Init/Tag may contain a loop that would consume it.
+		switchEnd, label := c.generateLabel(labelEnd)
+
 		if n.Init != nil {
 			ast.Walk(c, n.Init)
 		}
@@ -979,7 +983,6 @@ func (c *codegen) Visit(node ast.Node) ast.Visitor {
 		} else {
 			emit.Bool(c.prog.BinWriter, true)
 		}
-		switchEnd, label := c.generateLabel(labelEnd)
 
 		lastSwitch := c.currentSwitch
 		c.currentSwitch = label
